@@ -324,6 +324,19 @@ def cleanWrap (chunks : List Str) (s : Str) (length : Nat) : Bool :=
 
 /-! ## callbacks._makeReply -/
 
+/-- the texts that come from the locale (`_('…')`) -/
+structure Texts where
+  moreSingular : Str         -- _('more message')
+  morePlural : Str           -- _('more messages')
+  emptyReply : Str           -- _('Error: I tried to send you an empty message.')
+  errorPrefix : Str          -- _('Error: ')
+deriving DecidableEq, Repr
+
+/-- the untranslated texts, as they stand in the source -/
+def Texts.english : Texts :=
+  { moreSingular := Gen.moreSingular, morePlural := Gen.morePlural, emptyReply := Gen.emptyReply,
+    errorPrefix := Gen.errorPrefix }
+
 /-- everything `_makeReply` and the length arithmetic of `reply` look at -/
 structure Env where
   botPrefix : Str            -- irc.prefix
@@ -342,6 +355,11 @@ structure Env where
   confInPrivate : Bool       -- supybot.reply.inPrivate
   confWithNickPrefix : Bool  -- supybot.reply.withNickPrefix
   confNoticeWhenPrivate : Bool -- supybot.reply.withNoticeWhenPrivate
+  texts : Texts := Texts.english
+  action : Bool := false     -- `action=True`: sent as a CTCP ACTION, without length check
+  errorMode : Bool := false  -- `_makeErrorReply`: `error=True`
+  confErrNotice : Bool := false    -- supybot.reply.error.withNotice
+  confErrPrivate : Bool := false   -- supybot.reply.error.inPrivate
 deriving DecidableEq, Repr
 
 structure Out where
@@ -367,11 +385,15 @@ def replyFrame (e : Env) : Str × Str × Str :=
   let tp1 : Str × Bool := match e.to with
     | some t => if e.pubTo then (t, true) else (target0, pub0)
     | none => (target0, pub0)
-  let notice := e.notice.getD e.confWithNotice
-  let priv := e.priv.getD e.confInPrivate
+  let notice0 := e.notice.getD e.confWithNotice
+  let priv0 := e.priv.getD e.confInPrivate
   let prefixNick0 := e.prefixNick.getD e.confWithNickPrefix
+  -- if error: notice = conf.…error.withNotice or notice; private = conf.…error.inPrivate or private
+  let notice := if e.errorMode then e.confErrNotice || notice0 else notice0
+  let priv := if e.errorMode then e.confErrPrivate || priv0 else priv0
   -- if private: prefixNick = False; target = msg.nick if to is None else to
-  let prefixNick := if priv then false else prefixNick0
+  -- if action: prefixNick = False
+  let prefixNick := if priv || e.action then false else prefixNick0
   let tp2 : Str × Bool := if priv then
       (match e.to with
        | none => (e.nick, e.pubNick)
@@ -386,15 +408,19 @@ def replyFrame (e : Env) : Str × Str × Str :=
   let pre := if prefixNick && tp2.2 && !pubTo' then to' ++ [':', ' '] else []
   -- if not isPublic(target): if conf.supybot.reply.withNoticeWhenPrivate(): notice = True
   let notice' := if !tp2.2 && e.confNoticeWhenPrivate then true else notice
-  (if notice' then Gen.noticeCmd else Gen.privmsgCmd, tp2.1, pre)
+  -- msgmaker: privmsg; notice if notice; action if action (an action is never a NOTICE)
+  (if notice' && !e.action then Gen.noticeCmd else Gen.privmsgCmd, tp2.1, pre)
 
-/-- the text after the nick prefix: `s.strip('\x01')`, and the error text when nothing is left -/
+/-- the text after the nick prefix: the error prefix, `s.strip('\x01')`, the error text when nothing is
+left (not for actions), the CTCP ACTION wrapping -/
 def replyBody (e : Env) (s : Str) : Str :=
-  let s1 := if e.stripCtcp then stripCtcpStr s else s
-  if s1.isEmpty then Gen.emptyReply else s1
+  let s0 := if e.errorMode then e.texts.errorPrefix ++ s else s
+  let s1 := if e.stripCtcp then stripCtcpStr s0 else s0
+  let s2 := if s1.isEmpty && !e.action then e.texts.emptyReply else s1
+  if e.action then Gen.actionPrefix ++ s2 ++ Gen.actionSuffix else s2
 
-/-- `_makeReply(irc, msg, s, to=, notice=, private=, prefixNick=, stripCtcp=)` for a payload on which
-`safeArgument` is the identity (`validArg s`); `action`/`error` are not on the chunking path. -/
+/-- `_makeReply(irc, msg, s, to=, notice=, private=, prefixNick=, action=, error=, stripCtcp=)` for a
+payload on which `safeArgument` is the identity (`validArg s`) -/
 def makeReply (e : Env) (s : Str) : Out :=
   { command := (replyFrame e).1, target := (replyFrame e).2.1, payload := (replyFrame e).2.2 ++ replyBody e s }
 
@@ -418,12 +444,12 @@ def bold (s : Str) : Str := Gen.boldChar :: (s ++ [Gen.boldChar])
 def countText (n : Nat) (more : Str) : Str := '(' :: (natToStr n ++ ' ' :: (more ++ [')']))
 
 /-- `max(_('more message'), _('more messages'), key=len)` -/
-def longerMore : Str :=
-  if Gen.moreSingular.length < Gen.morePlural.length then Gen.morePlural else Gen.moreSingular
+def longerMore (t : Texts) : Str :=
+  if t.moreSingular.length < t.morePlural.length then t.morePlural else t.moreSingular
 
 /-- `' ' + ircutils.bold('(%i %s)' % (8 * s_size, suffix))` measured in bytes -/
-def suffixReserve (sSize : Nat) : Nat :=
-  blen (' ' :: bold (countText (Gen.tabFactor * sSize) longerMore))
+def suffixReserve (t : Texts) (sSize : Nat) : Nat :=
+  blen (' ' :: bold (countText (Gen.tabFactor * sSize) (longerMore t)))
 
 /-- `512 - len(probe.encode())`, `probe` = the wire form of `_makeReply(self, msg, '.')` without the dot;
 `none` when nothing is left (outside the model) -/
@@ -442,15 +468,15 @@ def truncate (allowed : Nat) (cfg : Cfg) (s : Str) : Str :=
 
 /-- the text of the message carrying `chunk` when `i` messages have been built before it
 (`i = 0` is the last chunk) -/
-def withSuffix (i : Nat) (chunk : Str) : Str :=
+def withSuffix (t : Texts) (i : Nat) (chunk : Str) : Str :=
   if i = 0 then chunk
-  else chunk ++ ' ' :: bold (countText i (if i = 1 then Gen.moreSingular else Gen.morePlural))
+  else chunk ++ ' ' :: bold (countText i (if i = 1 then t.moreSingular else t.morePlural))
 
 /-- `for (i, chunk) in enumerate(chunks): … msgs.append(_makeReply(…))` over the reversed chunk list;
 `msgs` is in Python order (index 0 = last chunk; the stack is popped from the end) -/
 def buildMsgs (e : Env) : List Str → List Out → List Out
   | [], msgs => msgs
-  | chunk :: rest, msgs => buildMsgs e rest (msgs ++ [makeReply e (withSuffix msgs.length chunk)])
+  | chunk :: rest, msgs => buildMsgs e rest (msgs ++ [makeReply e (withSuffix e.texts msgs.length chunk)])
 
 /-- `msgs.pop()` on a Python list: (last element, the rest) -/
 def popLast (l : List Out) : Option (Out × List Out) :=
@@ -489,7 +515,7 @@ def reply (e : Env) (cfg : Cfg) (chunks : List Str) (s : Str) : ReplyRes :=
   | some (allowed, s1, single) =>
     if single then .sent [makeReply e s1] none
     else
-      let reserve := suffixReserve (blen s1)
+      let reserve := suffixReserve e.texts (blen s1)
       if allowed < reserve then .unsupported
       else match ircWrap chunks s1 (allowed - reserve) with
         | .ok lines =>
@@ -499,6 +525,137 @@ def reply (e : Env) (cfg : Cfg) (chunks : List Str) (s : Str) : ReplyRes :=
           | none => .sent sent none
           | some (x, stored) => .sent (sent ++ [x]) (some stored)
         | r => .wrapFailed r
+
+/-! ## the other shapes of a reply -/
+
+/-- `irc.reply(s, action=…)` at top level: `action=True` implies `noLengthCheck` (one message, whatever
+its size); everything else goes through the length-checked branch -/
+def replyCall (e : Env) (cfg : Cfg) (chunks : List Str) (s : Str) : ReplyRes :=
+  if e.action then .sent [makeReply e s] none else reply e cfg chunks s
+
+/-- `_makeErrorReply(irc, msg, s)`: `error=True`, none of the reply attributes of the proxy are used -/
+def errorEnv (e : Env) : Env :=
+  { e with to := none, pubTo := false, notice := none, priv := none, prefixNick := none, action := false,
+           errorMode := true }
+
+/-- `irc.error(s)` (no `Raise`): one message, never length-checked; nothing when `s` is empty -/
+def errorReply (e : Env) (s : Str) : Option Out :=
+  if s.isEmpty then none else some (makeReply (errorEnv e) s)
+
+/-- a nested command's reply becomes an argument: `s[:conf.supybot.reply.maximumLength()]` -/
+def nestedArg (maximumLength : Nat) (s : Str) : Str := s.take maximumLength
+
+/-! ## Irc._truncateMsg: what is really written to the socket -/
+
+/-- the line the bot sends (the server adds `:prefix ` when relaying it) -/
+def outLine (o : Out) : Str := o.command ++ ' ' :: (o.target ++ ' ' :: ':' :: (o.payload ++ ['\r', '\n']))
+
+/-- `bytes[:n].decode('utf-8', 'ignore')`: the whole characters that fit in `n` bytes -/
+def takeBytes : Nat → Str → Str
+  | _, [] => []
+  | n, c :: cs => if c.utf8Size ≤ n then c :: takeBytes (n - c.utf8Size) cs else []
+
+/-- `Irc._truncateMsg` on a message without server tags -/
+def truncateLine (l : Str) : Str :=
+  if Gen.ircMaxLine < blen l then takeBytes (Gen.ircMaxLine - 2) l ++ ['\r', '\n'] else l
+
+/-- what `takeMsg` hands to the driver for a queued reply -/
+def sentLine (o : Out) : Str := truncateLine (outLine o)
+
+/-! ## configuration lookups: global values and the values of one channel -/
+
+structure ConfVals where
+  withNotice : Bool        -- supybot.reply.withNotice
+  inPrivate : Bool         -- supybot.reply.inPrivate
+  withNickPrefix : Bool    -- supybot.reply.withNickPrefix
+  errNotice : Bool         -- supybot.reply.error.withNotice
+  errPrivate : Bool        -- supybot.reply.error.inPrivate
+  mores : Bool             -- supybot.reply.mores
+  moresLength : Nat        -- supybot.reply.mores.length
+  maximum : Nat            -- supybot.reply.mores.maximum
+  instant : Nat            -- supybot.reply.mores.instant
+deriving DecidableEq, Repr
+
+/-- one call of `irc.reply` / `irc.error` as the command sees it, before any configuration lookup -/
+structure Call where
+  botPrefix : Str
+  msgPrefix : Str            -- msg.prefix
+  nick : Str                 -- msg.nick
+  msgTarget : Str            -- msg.args[0]
+  msgIsChannel : Bool        -- msg.channel is not None
+  to : Option Str            -- to=
+  pubTo : Bool               -- irc.isChannel(irc.stripChannelPrefix(to))
+  pubNick : Bool
+  pubMsgTarget : Bool
+  chanTo : Bool              -- ircutils.isChannel(to)         (the test made by registry.getSpecific)
+  chanMsgTarget : Bool       -- ircutils.isChannel(msg.args[0])
+  toIsNick : Bool            -- ircutils.isNick(to)
+  toHostmask : Option Str    -- irc.state.nickToHostmask(to), when known
+  notice : Option Bool       -- notice=
+  priv : Option Bool         -- private=
+  prefixNick : Option Bool   -- prefixNick=
+  action : Bool              -- action=True
+  stripCtcp : Bool
+  texts : Texts
+  noticeWhenPrivate : Bool   -- supybot.reply.withNoticeWhenPrivate (global)
+  confGlobal : ConfVals
+  confChan : Option (Str × ConfVals)     -- the values set for one channel
+deriving DecidableEq, Repr
+
+/-- `conf.get(group, channel=ch)`: the channel's values when `ch` is that channel, else the global ones -/
+def Call.confAt (c : Call) (ch : Option Str) : ConfVals :=
+  match ch, c.confChan with
+  | some x, some (oc, v) => if x = oc then v else c.confGlobal
+  | _, _ => c.confGlobal
+
+/-- the target `_makeReply` starts from (`replyTo(msg)`, or `to` when it is a channel) and whether it
+is public: the channel its configuration is looked up for -/
+def Call.lookupChannel (c : Call) : Option Str :=
+  let target0 := if c.msgIsChannel then c.msgTarget else c.nick
+  let pub0 := if c.msgIsChannel then c.pubMsgTarget else c.pubNick
+  match c.to with
+  | some t => if c.pubTo then some t else (if pub0 then some target0 else none)
+  | none => if pub0 then some target0 else none
+
+/-- the reply attributes and configuration values as `_makeReply` will see them -/
+def Call.env (c : Call) : Env :=
+  -- _resetReplyAttributes: self.prefixNick = conf.get(withNickPrefix, channel=msg.channel) / global
+  let dflt := (c.confAt (if c.msgIsChannel then some c.msgTarget else none)).withNickPrefix
+  -- reply(): if prefixNick is not None: self.prefixNick = prefixNick; if action: self.prefixNick = False
+  let pn := if c.action then false else c.prefixNick.getD dflt
+  let cv := c.confAt c.lookupChannel
+  { botPrefix := c.botPrefix, nick := c.nick, msgTarget := c.msgTarget, msgIsChannel := c.msgIsChannel,
+    to := c.to, pubTo := c.pubTo, pubNick := c.pubNick, pubMsgTarget := c.pubMsgTarget,
+    notice := c.notice, priv := c.priv, prefixNick := some pn, stripCtcp := c.stripCtcp,
+    confWithNotice := cv.withNotice, confInPrivate := cv.inPrivate, confWithNickPrefix := cv.withNickPrefix,
+    confNoticeWhenPrivate := c.noticeWhenPrivate, texts := c.texts, action := c.action, errorMode := false,
+    confErrNotice := cv.errNotice, confErrPrivate := cv.errPrivate }
+
+/-- `irc.error(s)`: no keyword reaches `_makeReply`; `prefixNick` falls back to the configuration -/
+def Call.errorEnv (c : Call) : Env :=
+  let c' := { c with to := none, pubTo := false, chanTo := false, notice := none, priv := none, prefixNick := none,
+                     action := false }
+  { c'.env with prefixNick := none, errorMode := true }
+
+/-- `target = self._getTarget(to)`: the channel the `reply.mores.*` values are looked up for -/
+def Call.cfg (c : Call) : Cfg :=
+  let usesTo := c.priv == some true && (match c.to with
+    | some t => !t.isEmpty
+    | none => false)
+  let target := if usesTo then c.to.getD [] else c.msgTarget
+  let isChan := if usesTo then c.chanTo else c.chanMsgTarget
+  let cv := c.confAt (if isChan then some target else none)
+  { moresLength := cv.moresLength, maximumMores := cv.maximum, instant := cv.instant, mores := cv.mores }
+
+/-- the key under which `reply` stores the pending messages: the `user@host` of `to` when it is a nick
+the bot knows, else the requester's -/
+def Call.storeMask (c : Call) : Str :=
+  let pfx := match c.to with
+    | some t => if !t.isEmpty && c.toIsNick then c.toHostmask.getD c.msgPrefix else c.msgPrefix
+    | none => c.msgPrefix
+  match split1 '!' pfx with
+  | some (_, rest) => rest
+  | none => []
 
 /-! ## Misc.more -/
 
